@@ -41,9 +41,15 @@ fn op_kind(op: &Op) -> &'static str {
 
 /// One seeded scenario: generate a fault-free history, pick targets, enumerate every fault position of each.
 pub fn scenario(seed: u64, sticky: bool, max_points: u64) -> RunOutcome {
+    scenario_for(seed, sticky, max_points, "C09", Oracles { io_errors: true, ..Default::default() }, false)
+}
+
+/// The same enumeration in the service of another property: `oracles` decide what is checked in the fault-free run and
+/// (in its relaxed form) after the failed operation; `only_mutating` restricts the targets to calls that change the volume.
+pub fn scenario_for(seed: u64, sticky: bool, max_points: u64, prop: &'static str, oracles: Oracles, only_mutating: bool) -> RunOutcome {
     let mut r = Rng::new(seed);
-    let mut fl = props::base_flavor("C09");
-    fl.oracles = Oracles { io_errors: true, ..Default::default() };
+    let mut fl = props::base_flavor(prop);
+    fl.oracles = oracles;
     fl.max_cluster_bytes = 16384;
     fl.fat_w = [4, 3, 3];
     let cfg = props::draw_cfg(&mut r, &fl);
@@ -56,17 +62,17 @@ pub fn scenario(seed: u64, sticky: bool, max_points: u64) -> RunOutcome {
     prof.invalid_names = 10;
     prof.max_write = 40_000;
     let mut g = Gen::new(r.next_u64(), prof);
-    let base = exec::run(cfg.clone(), "C09", &mut g, 200);
+    let base = exec::run(cfg.clone(), prop, &mut g, 200);
     let mut o = RunOutcome::empty();
     o.evaluations = 0;
     o.stats = base.stats.clone();
     if let Some(v) = base.violation {
-        let rep = Replay { property: "C09".into(), kind: "engine".into(), seed, cfg, steps: base.trace, violation: Some(v.clone()) };
+        let rep = Replay { property: prop.into(), kind: "engine".into(), seed, cfg, steps: base.trace, violation: Some(v.clone()) };
         o.violation = Some((v, rep));
         return o;
     }
     // candidate targets: steps that issued device calls
-    let cands: Vec<usize> = (0..base.trace.len()).filter(|i| base.step_calls.get(*i).copied().unwrap_or(0) > 0 && !matches!(base.trace[*i].op, Op::Checkpoint | Op::Remount { .. } | Op::Clock { .. })).collect();
+    let cands: Vec<usize> = (0..base.trace.len()).filter(|i| base.step_calls.get(*i).copied().unwrap_or(0) > 0 && !matches!(base.trace[*i].op, Op::Checkpoint | Op::Remount { .. } | Op::Clock { .. }) && (!only_mutating || crate::c14::is_mutating(&base.trace[*i].op))).collect();
     if cands.is_empty() {
         return o;
     }
@@ -96,7 +102,7 @@ pub fn scenario(seed: u64, sticky: bool, max_points: u64) -> RunOutcome {
             steps[t].hard_at = Some(k);
             steps[t].sticky = sticky;
             let mut src = ReplaySource { steps: steps.clone(), i: 0 };
-            let res = exec::run(cfg.clone(), "C09", &mut src, steps.len() + 1);
+            let res = exec::run(cfg.clone(), prop, &mut src, steps.len() + 1);
             o.evaluations += 1;
             o.distinct.push(crate::rng::hash_bytes(k, format!("{}:{:?}", op_kind(&steps[t].op), base.step_calls[t]).as_bytes()) ^ seed);
             o.stats.fired.hard += res.stats.fired.hard;
@@ -105,7 +111,7 @@ pub fn scenario(seed: u64, sticky: bool, max_points: u64) -> RunOutcome {
                 *o.counters.entry("fault_did_not_fire(harness-determinism-alarm)".into()).or_insert(0) += 1;
             }
             if let Some(v) = res.violation {
-                let rep = Replay { property: "C09".into(), kind: "engine".into(), seed, cfg: cfg.clone(), steps, violation: Some(v.clone()) };
+                let rep = Replay { property: prop.into(), kind: "engine".into(), seed, cfg: cfg.clone(), steps, violation: Some(v.clone()) };
                 o.violation = Some((v, rep));
                 return o;
             }
